@@ -60,6 +60,10 @@ func reflectMap(v interface{}) (reflect.Value, bool) {
 	}
 	rt := rv.Type()
 	for rv.Kind() == reflect.Interface || rv.Kind() == reflect.Pointer {
+		if rv.IsNil() {
+			// e.g. a pointer to a nil pointer: not a map; let the caller report it
+			return rv, false
+		}
 		rv = rv.Elem()
 		rt = rv.Type()
 	}
